@@ -13,9 +13,10 @@ RULE = ('enum: serial networks with 1..4 nodes (random index sets and orders), g
         '(lo,hi,num) / defaults as singleton, dict or list, objectives = expression trees (separable and coupled quadratics, piecewise-linear, '
         'plateaus, constants) with coefficients k/4 (exact regime); tad: every argument combination incl. truncation_hi=0, negative lo, '
         'step 0 / negative / larger than the range, hi<lo, inexact decimal steps; groups: disjoint and overlapping sets; golden: intervals '
-        '(also reversed or narrower than tol), tol 1e-2..1e-8, unimodal functions ((x-c)^2 forms, expanded quadratics, |x-c|, asymmetric '
-        'piecewise-linear, K/x+hx, linear) with arbitrary binary64 coefficients; cd: boxes, convex quadratics / piecewise-linear, groups, '
-        'start inside or outside the box; simseed: simulation-based meio_by_enumeration on 1..3-node serial systems, tiny grids, sim_rand_seed 0 and non-zero, each call '
+        '(also with a > b, of zero width, or narrower than tol in either orientation), tol 1e-2..1e-8, unimodal functions ((x-c)^2 forms, expanded quadratics, |x-c|, asymmetric '
+        'piecewise-linear, K/x+hx, linear) with arbitrary binary64 coefficients; cd: boxes (some given as (upper, lower) end), convex quadratics / piecewise-linear, groups, '
+        'start inside or outside the box; simseed: simulation-based meio_by_enumeration on 1..3-node serial systems, tiny grids, sim_rand_seed 0 and non-zero, '
+        'without groups and (at least every other case) with a group of two nodes, arbitrary levels on the network before the call, each call '
         'twice from different global RNG states, against an independent seeded re-simulation of every grid vector. non-trivial = enum: grid has >1 vector and the objective is not constant on it; tad: >1 grid point; '
         'groups: at least one set of size>1; golden: the loop runs (n>=2); cd: more than one sweep or more than one group. '
         'distinct = distinct case contents.')
@@ -687,8 +688,9 @@ def gen_golden(rng):
         sl = u(-9, 9) or 1.0; k = u(-20, 20)
         c['f'] = ['add', ['mul', FCc(sl), X], FCc(k)]
         c['xstar'] = a if sl > 0 else b; c['res'] = 16 * EPS * (abs(k) / abs(sl) + max(abs(a), abs(b), 1.0))
-    if rng.random() < 0.15: a, b = b, a                                   # reversed end points
-    if rng.random() < 0.08: b = a + rng.choice([0.0, float.fromhex(c['tol']) * rng.random()])   # narrower than tol
+    if rng.random() < 0.2: a, b = b, a                                    # reversed end points (a > b)
+    if rng.random() < 0.08:                                               # narrower than tol (zero width, or either orientation)
+        b = a + rng.choice([0.0, 1.0, -1.0]) * float.fromhex(c['tol']) * rng.random()
     c['a'] = float(a).hex(); c['b'] = float(b).hex()
     if fam != 'eoq' or True:
         lo, hi = min(float(a), float(b)), max(float(a), float(b))
@@ -719,13 +721,22 @@ def golden_xstar(c):
     return min(max(xs, lo), hi)
 
 
+def golden_iterations(c, r):
+    """number n of golden-section iterations the implementation ran, read off its evaluation count (2 initial points, one per
+    further iteration, one at the returned point); 0 when the interval is within tol or when it took the single-evaluation
+    exit although the interval is wider than tol (the oracle then reports too few iterations) -- never negative"""
+    a = float.fromhex(c['a']); b = float.fromhex(c['b']); tol = float.fromhex(c['tol'])
+    if r[0] != 'ok' or max(a, b) - min(a, b) <= tol: return 0
+    return max(len(r[3]) - 2, 0)
+
+
 def golden_oracle(c, r):
     bad = []
     if r[0] == 'err':
         return [('golden_section_search|raises-%s' % r[1], r[2])], 0
     _, x, y, calls = r
     a = float.fromhex(c['a']); b = float.fromhex(c['b']); tol = float.fromhex(c['tol']); lo, hi = min(a, b), max(a, b); h = hi - lo
-    n = 0 if h <= tol else len(calls) - 2
+    n = golden_iterations(c, r)
     if not (isinstance(x, float) and isinstance(y, float)):
         bad.append(('golden_section_search|result-type', 'returned (%r, %r)' % (x, y))); return bad, n
     fx = fe_eval(c['f'], x)
@@ -747,18 +758,23 @@ def golden_oracle(c, r):
 def explore_golden(chk, n, do_model=True):
     cases = [gen_golden(chk.rng) for _ in range(n)]
     impl = [run_golden_impl(c) for c in cases]
+    # oracle first: a failing input is recorded even if the implementation's run has a shape the model comparison does not expect
+    verdicts = []
+    for c, r in zip(cases, impl):
+        bad, nn = golden_oracle(c, r); verdicts.append((bad, nn))
+        for sig, what in bad: chk.fail(sig, what, c)
     exprs = []
     for c, r in zip(cases, impl):
         a = float.fromhex(c['a']); b = float.fromhex(c['b']); tol = float.fromhex(c['tol'])
-        nn = 0 if (r[0] != 'ok' or max(a, b) - min(a, b) <= tol) else len(r[3]) - 2
+        nn = golden_iterations(c, r)
         c['n'] = nn
         exprs.append('let r := golden FOps (feval FOps %s) %s %s %s %s in [fobs (fst r); fobs (snd r)]' % (fe_coq(c['f']), cfloat(a), cfloat(b), cfloat(tol), cnat(nn)))
     model = coq_eval_sharded('c19f', 'Base.Qx Alg.Golden', '', exprs, shard=60) if do_model else [None] * n
-    for c, r, m in zip(cases, impl, model):
+    for c, r, m, (bad, nn) in zip(cases, impl, model, verdicts):
         chk.count('golden:fam=%s' % c['fam']); chk.count('golden:tol=%g' % float.fromhex(c['tol']))
-        bad, nn = golden_oracle(c, r)
+        a = float.fromhex(c['a']); b = float.fromhex(c['b'])
+        chk.count('golden:interval=%s' % ('zero-width' if a == b else ('reversed' if a > b else 'ordered') + ('-within-tol' if abs(b - a) <= float.fromhex(c['tol']) else '')))
         chk.count('golden:n=%s' % ('0' if nn == 0 else '1-9' if nn < 10 else '10-29' if nn < 30 else '30+'))
-        for sig, what in bad: chk.fail(sig, what, c)
         if do_model and r[0] == 'ok':
             chk.traces += 1
             try:
@@ -795,6 +811,10 @@ def gen_cd(rng):
              init={str(n): enc(init[n]) for n in nodes}, tol=enc(rng.choice([Fraction(1, 100), Fraction(1, 100), Fraction(1, 2), Fraction(1, 1000), Fraction(0)])),
              ls_tol=rng.choice([1e-4, 1e-4, 1e-2, 1e-6]))
     if lo_none: c['lo'] = ['none']
+    elif rng.random() < 0.1:
+        # search range given as (upper end, lower end): golden_section_search takes the end points of its interval in either
+        # order, and so does every line search of coordinate descent; the search box is [min, max] per node
+        c['lo'], c['hi'] = c['hi'], c['lo']; c['swapped'] = True
     return c
 
 
@@ -802,6 +822,8 @@ def cd_bounds(c):
     nodes = c['nodes']
     lo = {n: (Fraction(0) if arg_get(c['lo'], nodes, n) is None else dec(arg_get(c['lo'], nodes, n))) for n in nodes}
     hi = {n: dec(arg_get(c['hi'], nodes, n)) for n in nodes}
+    for n in nodes:
+        if hi[n] < lo[n]: lo[n], hi[n] = hi[n], lo[n]                    # ends given the other way round: same box
     return lo, hi
 
 
@@ -874,7 +896,7 @@ def explore_cd(chk, n, do_model=True):
                         al({n_: dec(c['init'][str(n_)]) for n_ in nodes}), cq(dec(c['tol']))))
     model = coq_eval_sharded('c19c', 'Base.Qx Alg.CoordDesc', '', exprs, shard=25) if do_model else [None] * n
     for c, r, m in zip(cases, impl, model):
-        chk.count('cd:nodes=%d' % len(c['nodes'])); chk.count('cd:obj=%s' % c['objkind']); chk.count('cd:start-inside=%s' % c['inside'])
+        chk.count('cd:nodes=%d' % len(c['nodes'])); chk.count('cd:obj=%s' % c['objkind']); chk.count('cd:start-inside=%s' % c['inside']); chk.count('cd:range-ends-swapped=%s' % bool(c.get('swapped')))
         bad, nontriv = cd_oracle(c, r)
         for sig, what in bad: chk.fail(sig, what, c)
         if r[0] == 'ok':
@@ -913,7 +935,7 @@ def sim_cases(chk, thorough):
     from stockpyl.sim import run_multiple_trials
     from stockpyl.instances import load_instance
     rng = chk.rng
-    specs = [dict(kind='simobj', sub='sim-enum', seed=rng.randint(1, 10 ** 6), trials=2, periods=40 if not thorough else 200, grid={'1': [5, 7], '2': [4, 6], '3': [10, 12]}, groups=None)]
+    specs = [dict(kind='simobj', sub='sim-enum', seed=rng.randint(1, 10 ** 6), trials=2, periods=40 if not thorough else 200, grid={'1': [5, 7], '2': [4, 6], '3': [10, 12]}, groups=rng.choice([None, [[1, 2]], [[2, 3]]]))]
     if thorough:
         specs.append(dict(kind='simobj', sub='sim-enum', seed=rng.randint(1, 10 ** 6), trials=3, periods=300, grid={'1': [5, 6, 7], '2': [5, 6], '3': [11]}, groups=[[1, 2]]))
         specs.append(dict(kind='simobj', sub='ssm-enum', lo={'1': 5, '2': 4, '3': 10}, hi={'1': 7, '2': 6, '3': 12}))
@@ -1022,6 +1044,8 @@ def simseed_one(chk, c):
     for state in c['global_states']:
         np.random.seed(state); np.random.random(state % 7)           # a different position of the global stream before each call
         net = make_network(nodes, mean=c['mean'], sd=c['sd'])
+        for nd in net.nodes:                                          # levels sitting on the network before the search (must not matter)
+            if c.get('pre'): nd.inventory_policy.base_stock_level = c['pre'][str(nd.index)]
         with contextlib.redirect_stdout(io.StringIO()):
             S, cost = meio_by_enumeration(net, base_stock_levels={r_: grid[r_] for r_ in reps}, groups=py_groups(c['groups']), sim_num_trials=c['trials'],
                                           sim_num_periods=c['periods'], sim_rand_seed=c['seed'], progress_bar=False)
@@ -1049,16 +1073,21 @@ def simseed_one(chk, c):
 def sim_seed_cases(chk, thorough):
     rng = chk.rng
     specs = []
-    for seed in [0, rng.randint(1, 10 ** 6)] + ([0, 1, rng.randint(1, 10 ** 6)] if thorough else []):
-        two = rng.random() < 0.5 or seed == 0
-        nodes = [2, 1] if two else rng.choice([[1], [3, 2, 1]])
+    seeds = [0, rng.randint(1, 10 ** 6), rng.choice([0, rng.randint(1, 10 ** 6)])] + ([0, 1, rng.randint(1, 10 ** 6)] if thorough else [])
+    for i, seed in enumerate(seeds):
+        # every other case has a group of two nodes (the simulation objective must be evaluated at the COMPLETE vector: every
+        # member of a group at the group's level, whatever level sat on the network before the call); the others: groups at random
+        grouped = (i % 2 == 1) or rng.random() < 0.3
+        two = rng.random() < 0.5 or (seed == 0 and not grouped)
+        nodes = [2, 1] if two else ([3, 2, 1] if grouped else rng.choice([[1], [3, 2, 1]]))
         mean = rng.choice([4, 5, 6])
         grid = {str(n): sorted(rng.sample(range(mean - 2, mean + 5), 2)) for n in nodes}
-        specs.append(dict(kind='simseed', nodes=nodes, groups=None if rng.random() < 0.7 or len(nodes) == 1 else [sorted(nodes[:2])], grid=grid, mean=mean, sd=rng.choice([1, 2]),
+        pre = {str(n): mean + rng.choice([-3, 0, 0, 5, 7]) for n in nodes}
+        specs.append(dict(kind='simseed', nodes=nodes, groups=[sorted(rng.sample(nodes, 2))] if grouped else None, grid=grid, mean=mean, sd=rng.choice([1, 2]), pre=pre,
                           seed=seed, trials=rng.choice([2, 3]), periods=rng.choice([20, 30]) if not thorough else rng.choice([30, 100]),
                           global_states=[rng.randint(1, 10 ** 6), rng.randint(1, 10 ** 6)]))
     for c in specs:
-        chk.count('simseed:seed=%s' % ('0' if c['seed'] == 0 else 'nonzero'))
+        chk.count('simseed:seed=%s' % ('0' if c['seed'] == 0 else 'nonzero')); chk.count('simseed:groups=%s' % ('none' if c['groups'] is None else 'pair-of-%d-nodes' % len(c['nodes'])))
         try:
             nontriv = simseed_one(chk, c)
         except Exception as e:
